@@ -90,6 +90,10 @@ func gateGrid(quick bool) []string {
 			ids = append(ids, gateID("BaseSum", n, b))
 		}
 	}
+	// bases of two and three digits (few limbs: the range product has `base` factors)
+	for _, bn := range [][2]uint64{{10, 3}, {16, 2}, {16, 15}, {32, 2}, {100, 1}, {256, 2}} {
+		ids = append(ids, gateID("BaseSum", bn[1], bn[0]))
+	}
 	for _, n := range rng(1, 4, 1, 2) {
 		ids = append(ids, gateID("Constant", n))
 	}
